@@ -175,7 +175,9 @@ Section Transform.
                 0 0 Hv2) as [E3 E4].
     rewrite E3, E4.
     cbn [seq fold_left]. unfold stepf, v2.
-    rewrite <- !Nat.add_1_r. rewrite <- !Nat.add_assoc. cbn [Nat.add]. reflexivity.
+    replace (S (S (S t))) with (t + 3)%nat by lia.
+    replace (S (S t)) with (t + 2)%nat by lia.
+    replace (S t) with (t + 1)%nat by lia. reflexivity.
   Qed.
 
   (* ---- MSG4 on the schedule ---- *)
@@ -187,7 +189,205 @@ Section Transform.
   Proof.
     intros -> -> -> -> Hu. unfold vec_at at 1 2 3 4 5.
     rewrite msg4_shani_lanes by (apply (Ws_wf blk Hlen Hwf)).
-    rewrite <- (wt4_sched blk Hlen u1) by lia. cbv zeta.
+    unfold Ws. rewrite <- (wt4_sched blk Hlen u1) by lia. cbv zeta.
     rewrite <- !Nat.add_assoc. cbn [Nat.add]. reflexivity.
   Qed.
+
+  (* ---- the W[4] array: slot (j + k) mod 4 holds the schedule words of group j + k ---- *)
+  Definition grp (m : nat) : v128 := vec_at Ws (4 * m).
+  Definition warr (j : nat) : list v128 :=
+    match (j mod 4)%nat with
+    | 0%nat => [grp j; grp (j + 1); grp (j + 2); grp (j + 3)]
+    | 1%nat => [grp (j + 3); grp j; grp (j + 1); grp (j + 2)]
+    | 2%nat => [grp (j + 2); grp (j + 3); grp j; grp (j + 1)]
+    | _ => [grp (j + 1); grp (j + 2); grp (j + 3); grp j]
+    end.
+
+  Lemma nthv_updv_eq y0 y1 y2 y3 d x : (d < 4)%nat -> nthv (updv [y0; y1; y2; y3] d x) d = x.
+  Proof. intros H. do 4 (destruct d as [|d]; [reflexivity|]). lia. Qed.
+  Lemma nthv_updv_neq y0 y1 y2 y3 d e x : d <> e -> nthv (updv [y0; y1; y2; y3] d x) e = nthv [y0; y1; y2; y3] e.
+  Proof.
+    intros H. do 4 (destruct d as [|d]; [do 4 (destruct e as [|e]; [reflexivity || (exfalso; apply H; reflexivity)|]); reflexivity|]).
+    reflexivity.
+  Qed.
+  Lemma updv_updv4 y0 y1 y2 y3 d x y : updv (updv [y0; y1; y2; y3] d x) d y = updv [y0; y1; y2; y3] d y.
+  Proof. do 4 (destruct d as [|d]; [reflexivity|]). reflexivity. Qed.
+
+  (* RNDMSG with the branch and the index arithmetic evaluated *)
+  Lemma rndmsg_lo i k0 k1 k2 k3 St y0 y1 y2 y3 d d1 d2 d3 :
+    (i <? 12) = true -> N.to_nat (i mod 4) = d -> N.to_nat ((i + 4 + 0) mod 4) = d ->
+    N.to_nat ((i + 4 + 1) mod 4) = d1 -> N.to_nat ((i + 4 + 2) mod 4) = d2 ->
+    N.to_nat ((i + 4 + 3) mod 4) = d3 -> (d < 4)%nat -> d <> d1 -> d <> d2 -> d <> d3 ->
+    RNDMSG C (St, [y0; y1; y2; y3]) (i, k0, k1, k2, k3) =
+    (RND4 C St (nthv [y0; y1; y2; y3] d) [k0; k1; k2; k3],
+     updv [y0; y1; y2; y3] d
+       (sha256msg2 (mm_add_epi32 (sha256msg1 (nthv [y0; y1; y2; y3] d) (nthv [y0; y1; y2; y3] d1))
+                                 (mm_alignr_epi8 (nthv [y0; y1; y2; y3] d3) (nthv [y0; y1; y2; y3] d2) 4))
+                   (nthv [y0; y1; y2; y3] d3))).
+  Proof.
+    intros Hlt E0 E0' E1 E2 E3 Hd N1 N2 N3.
+    unfold RNDMSG, MSG4, widx. cbn [fst snd].
+    change (n_msg_limit C) with 12. change (n_msg_ahead C) with 4. change (n_rnd_mod C) with 4.
+    change (n_msg_mod C) with 4. change (n_msg_alignr C) with 4.
+    change (n_msg_offs C) with [0; 1; 3; 2; 3]. cbv iota.
+    rewrite Hlt, E0, E0', E1, E2, E3.
+    rewrite updv_updv4, nthv_updv_eq by exact Hd.
+    rewrite !nthv_updv_neq by assumption.
+    rewrite updv_updv4, nthv_updv_eq by exact Hd.
+    rewrite !nthv_updv_neq by assumption.
+    reflexivity.
+  Qed.
+  Lemma rndmsg_hi i k0 k1 k2 k3 St W d :
+    (i <? 12) = false -> N.to_nat (i mod 4) = d ->
+    RNDMSG C (St, W) (i, k0, k1, k2, k3) = (RND4 C St (nthv W d) [k0; k1; k2; k3], W).
+  Proof.
+    intros Hlt E0. unfold RNDMSG. cbn [fst snd].
+    change (n_msg_limit C) with 12. change (n_rnd_mod C) with 4. rewrite Hlt, E0. reflexivity.
+  Qed.
+
+  Ltac close_nat :=
+    repeat match goal with
+    | |- context [N.of_nat ?e] => let v := eval vm_compute in (N.of_nat e) in change (N.of_nat e) with v
+    end.
+
+  (* one RNDMSG group with message-schedule update *)
+  Lemma rndmsg_step_lo j v : (j < 12)%nat -> length v = 8%nat ->
+    RNDMSG C ((abef v, cdgh v), warr j) (shani_row K j) =
+    ((abef (fold_left stepf (seq (4 * j) 4) v), cdgh (fold_left stepf (seq (4 * j) 4) v)), warr (S j)).
+  Proof.
+    intros Hj Hv.
+    do 12 (destruct j as [|j];
+      [ unfold shani_row, warr; cbn [Nat.modulo Nat.divmod Nat.sub fst snd Nat.add Nat.mul]; close_nat;
+        match goal with
+        | |- RNDMSG _ (_, _) (?i, _, _, _, _) = _ =>
+          let d := eval vm_compute in (N.to_nat (i mod 4)) in
+          let d1 := eval vm_compute in (N.to_nat ((i + 4 + 1) mod 4)) in
+          let d2 := eval vm_compute in (N.to_nat ((i + 4 + 2) mod 4)) in
+          let d3 := eval vm_compute in (N.to_nat ((i + 4 + 3) mod 4)) in
+          rewrite (rndmsg_lo i _ _ _ _ _ _ _ _ _ d d1 d2 d3) by (reflexivity || lia)
+        end;
+        cbn [nthv nth updv]; unfold grp; cbn [Nat.mul Nat.add];
+        match goal with
+        | |- context [RND4 _ _ (vec_at _ ?t) _] =>
+          let R := fresh "R" in
+          pose proof (rnd4_rounds v t Hv) as R; cbn [Nat.add] in R; rewrite R; clear R
+        end;
+        match goal with
+        | |- context [sha256msg1 (vec_at _ ?a) (vec_at _ ?b)] =>
+          match goal with
+          | |- context [mm_alignr_epi8 (vec_at _ ?d) (vec_at _ ?c) 4] =>
+            let R := fresh "R" in
+            pose proof (msg4_shani_sched a b c d (a + 16) ltac:(reflexivity) ltac:(reflexivity)
+                          ltac:(reflexivity) ltac:(reflexivity) ltac:(cbn [Nat.add]; lia)) as R;
+            cbn [Nat.add] in R; rewrite R; clear R
+          end
+        end;
+        reflexivity
+      | ]).
+    lia.
+  Qed.
+
+  (* one of the last four groups: rounds only, W[] = groups 12..15 untouched *)
+  Lemma rndmsg_step_hi j v : (12 <= j < 16)%nat -> length v = 8%nat ->
+    RNDMSG C ((abef v, cdgh v), warr 12) (shani_row K j) =
+    ((abef (fold_left stepf (seq (4 * j) 4) v), cdgh (fold_left stepf (seq (4 * j) 4) v)), warr 12).
+  Proof.
+    intros Hj Hv.
+    do 12 (destruct j as [|j]; [lia|]).
+    do 4 (destruct j as [|j];
+      [ unfold shani_row, warr; cbn [Nat.modulo Nat.divmod Nat.sub fst snd Nat.add Nat.mul]; close_nat;
+        match goal with
+        | |- RNDMSG _ (_, _) (?i, _, _, _, _) = _ =>
+          let d := eval vm_compute in (N.to_nat (i mod 4)) in
+          rewrite (rndmsg_hi i _ _ _ _ _ _ d) by reflexivity
+        end;
+        cbn [nthv nth]; unfold grp; cbn [Nat.mul Nat.add];
+        match goal with
+        | |- context [RND4 _ _ (vec_at _ ?t) _] =>
+          let R := fresh "R" in
+          pose proof (rnd4_rounds v t Hv) as R; cbn [Nat.add] in R; rewrite R; clear R
+        end;
+        reflexivity
+      | ]).
+    lia.
+  Qed.
+
+  (* ---- the sixteen groups ---- *)
+  Lemma groups_rounds st : length st = 8%nat ->
+    fst (fold_left (RNDMSG C) (n_rndmsg C) ((abef st, cdgh st), warr 0)) =
+    (abef (fold_left stepf (seq 0 64) st), cdgh (fold_left stepf (seq 0 64) st)).
+  Proof.
+    intros Hst.
+    change (n_rndmsg C) with
+      [shani_row K 0; shani_row K 1; shani_row K 2; shani_row K 3; shani_row K 4; shani_row K 5;
+       shani_row K 6; shani_row K 7; shani_row K 8; shani_row K 9; shani_row K 10; shani_row K 11;
+       shani_row K 12; shani_row K 13; shani_row K 14; shani_row K 15].
+    cbn [fold_left].
+    change (seq 0 64) with (seq (4 * 0) 4 ++ seq (4 * 1) 4 ++ seq (4 * 2) 4 ++ seq (4 * 3) 4 ++
+      seq (4 * 4) 4 ++ seq (4 * 5) 4 ++ seq (4 * 6) 4 ++ seq (4 * 7) 4 ++ seq (4 * 8) 4 ++
+      seq (4 * 9) 4 ++ seq (4 * 10) 4 ++ seq (4 * 11) 4 ++ seq (4 * 12) 4 ++ seq (4 * 13) 4 ++
+      seq (4 * 14) 4 ++ seq (4 * 15) 4).
+    rewrite !fold_left_app.
+    rewrite (rndmsg_step_lo 0) by (try lia; repeat apply stepf_length; exact Hst).
+    rewrite (rndmsg_step_lo 1) by (try lia; repeat apply stepf_length; exact Hst).
+    rewrite (rndmsg_step_lo 2) by (try lia; repeat apply stepf_length; exact Hst).
+    rewrite (rndmsg_step_lo 3) by (try lia; repeat apply stepf_length; exact Hst).
+    rewrite (rndmsg_step_lo 4) by (try lia; repeat apply stepf_length; exact Hst).
+    rewrite (rndmsg_step_lo 5) by (try lia; repeat apply stepf_length; exact Hst).
+    rewrite (rndmsg_step_lo 6) by (try lia; repeat apply stepf_length; exact Hst).
+    rewrite (rndmsg_step_lo 7) by (try lia; repeat apply stepf_length; exact Hst).
+    rewrite (rndmsg_step_lo 8) by (try lia; repeat apply stepf_length; exact Hst).
+    rewrite (rndmsg_step_lo 9) by (try lia; repeat apply stepf_length; exact Hst).
+    rewrite (rndmsg_step_lo 10) by (try lia; repeat apply stepf_length; exact Hst).
+    rewrite (rndmsg_step_lo 11) by (try lia; repeat apply stepf_length; exact Hst).
+    rewrite (rndmsg_step_hi 12) by (try lia; repeat apply stepf_length; exact Hst).
+    rewrite (rndmsg_step_hi 13) by (try lia; repeat apply stepf_length; exact Hst).
+    rewrite (rndmsg_step_hi 14) by (try lia; repeat apply stepf_length; exact Hst).
+    rewrite (rndmsg_step_hi 15) by (try lia; repeat apply stepf_length; exact Hst).
+    reflexivity.
+  Qed.
+
+  Theorem transform_shani_rounds st : length st = 8%nat ->
+    transform_shani C st blk = map2 add32 st (fold_left stepf (seq 0 64) st).
+  Proof.
+    intros Hst. unfold transform_shani.
+    change (map (be32dec_128 C blk) (n_block_offs C)) with
+      [be32dec_128 C blk 0; be32dec_128 C blk 16; be32dec_128 C blk 32; be32dec_128 C blk 48].
+    rewrite (be32dec_128_vec 0 0), (be32dec_128_vec 1 16), (be32dec_128_vec 2 32), (be32dec_128_vec 3 48)
+      by (try reflexivity; lia).
+    pose proof (stepf_length 64 0 st Hst) as Hv.
+    pose proof (groups_rounds st Hst) as G.
+    set (v := fold_left stepf (seq 0 64) st) in *.
+    do 8 (destruct st as [|? st]; [discriminate|]). destruct st; [|discriminate].
+    do 8 (destruct v as [|? v]; [discriminate|]). destruct v; [|discriminate].
+    match goal with
+    | |- context [fold_left (RNDMSG C) (n_rndmsg C) (?S0, ?W0)] =>
+      change (fold_left (RNDMSG C) (n_rndmsg C) (S0, W0)) with
+        (fold_left (RNDMSG C) (n_rndmsg C)
+           ((abef [n; n0; n1; n2; n3; n4; n5; n6], cdgh [n; n0; n1; n2; n3; n4; n5; n6]), warr 0))
+    end.
+    rewrite G. reflexivity.
+  Qed.
 End Transform.
+
+(* G4 *)
+Theorem transform_shani_std_eq_compress st blk :
+  length st = 8%nat -> length blk = 64%nat -> Forall wf8 blk ->
+  transform_shani (shani_std K256) st blk = f256_compress st blk.
+Proof. intros Hst Hb Hwf. rewrite transform_shani_rounds by assumption. reflexivity. Qed.
+
+Theorem transform_shani_std_eq_portable K st blk :
+  length st = 8%nat -> length blk = 64%nat -> Forall wf8 blk ->
+  transform_shani (shani_std K) st blk = c256_transform K st blk.
+Proof.
+  intros Hst Hb Hwf. rewrite transform_shani_rounds by assumption.
+  symmetry. apply c256_transform_eq_compress; assumption.
+Qed.
+
+Theorem transform_shani_std_eq_sse2 K st blk :
+  length st = 8%nat -> length blk = 64%nat -> Forall wf8 blk ->
+  transform_shani (shani_std K) st blk = transform_sse2 (sse2_std K) st blk.
+Proof.
+  intros Hst Hb Hwf. rewrite transform_shani_std_eq_portable, transform_sse2_std_eq_portable by assumption.
+  reflexivity.
+Qed.
